@@ -103,8 +103,20 @@ func vC09SizeOf(size int) int {
 }
 
 func TestVerifC09Compaction(t *testing.T) {
-	st := verifkit.For("C09", "TestVerifC09Compaction",
-		"bed T: 1-8 generated TSM files (drawn generations/sequences, 1-12 keys of all five types, per key and file 0-6 blocks of 1/2/999/1000/random points whose ranges across files are disjoint, adjacent, interleaved, nested or identical, tombstones per file: whole key, whole block, partial, nothing), a group of whole contiguous generations compacted with CompactFast/CompactFull at Size default/10/1, optional failure injection (abort from the compact.block / compact.filewritten hook, corrupted block, pre-existing output name), optional second compaction round; oracle = independent newest-wins fold minus per-file tombstones, output validity, originals intact after failure. non-trivial = two group files share a key with overlapping block ranges or a tombstone cuts a block partially; distinct = hash of the full layout + mode + size + injection")
+	vC09CompactionProperty(t, "TestVerifC09Compaction", false,
+		"bed T: 1-8 generated generations of TSM files (drawn generation/sequence numbers, a generation cut into 1-3 consecutive sequence files, files created in drawn order; 1-12 keys of all five types, keys missing from some files, one key near the maximum length; per key and file 0-6 blocks of 1/2/999/1000/random points whose ranges across generations are disjoint, adjacent, interleaved, nested or identical; tombstones per file: whole key, key range, whole block, partial, covering nothing, random; applied before or after the store is opened; timestamps also at both ends of the valid range), a group of whole contiguous generations compacted with CompactFast/CompactFull at Size default/10/1, optional failure injection (DisableCompactions from the compact.block / compact.filewritten hook, corrupted block, pre-existing output name) followed by a retry, optional second compaction round, reopen; oracle = independent newest-wins fold minus per-file tombstones read through ReadAll and KeyCursor (asc/desc), output validity, originals byte-identical after a failure. non-trivial = two group files share a key with identical/nested/interleaved block ranges or a tombstone cuts a block partially; distinct = hash of the full layout + mode + size + injection")
+}
+
+// TestVerifC09BlockLimit is the same property on the block-count-limit scenario: one key with
+// 66-68 full blocks and a tombstone, re-chunked at one point per block, so that the 65535
+// blocks-per-key limit of a TSM file is reached and the output rolls over to a second file.
+func TestVerifC09BlockLimit(t *testing.T) {
+	vC09CompactionProperty(t, "TestVerifC09BlockLimit", true,
+		"bed T, block-count limit: one file whose first key holds 66-68 blocks of 1000 points plus a tombstone (so every block is decoded), Size=1, CompactFast/CompactFull with the same failure injections as TestVerifC09Compaction: the output must roll over to a further file after 65535 blocks of the key and read back as the reference. non-trivial = always (a tombstone cuts a block); distinct = hash of layout + mode + injection")
+}
+
+func vC09CompactionProperty(t *testing.T, name string, blockLimit bool, rule string) {
+	st := verifkit.For("C09", name, rule)
 	defer st.Flush()
 	vC09InstallHook()
 	defer verifhook.Set(nil)
@@ -117,7 +129,7 @@ func TestVerifC09Compaction(t *testing.T) {
 			rt.Fatal(err)
 		}
 		defer os.RemoveAll(dir)
-		c := vC09DrawCase(rt, 8)
+		c := vC09DrawCase(rt, 8, blockLimit)
 		mode := rapid.SampledFrom([]string{"fast", "full"}).Draw(rt, "mode")
 		size := rapid.SampledFrom([]int{0, 0, 10, 1}).Draw(rt, "size")
 		if c.forceSize != 0 {
